@@ -162,6 +162,12 @@ pub fn templates() -> Vec<(&'static str, Vec<String>)> {
     val("list-index", &|y| format!("element_at({y}, [1, 2, 3])"));
     val("format-digits", &|y| format!("\"{{{y}:.3}}\""));
     val("mod-gcd", &|y| format!("mod({y}, 7) + gcd(12, 18)"));
+    // failing assertions with extreme operands and tolerances (the failure message is formatted
+    // from them)
+    val("assert-eq-tolerance", &|y| format!("assert_eq(1, 2, {y})"));
+    val("assert-eq-tolerance-unit", &|y| format!("assert_eq(1 m, 2.5 cm, ({y}) km)"));
+    val("assert-eq-operands", &|y| format!("assert_eq({y}, 2)\nassert_eq(3 m, ({y}) cm, 1 mm)"));
+    val("error-message", &|y| format!("error(\"{{{y}}} {{({y}) m}}\")"));
     let mut rep = |name: &'static str, f: &dyn Fn(usize) -> String| {
         v.push((name, reps.iter().map(|n| f(*n)).collect()));
     };
